@@ -194,7 +194,8 @@ def r4(ctx):
     if ok:
         s = stores[0]
         ok = isinstance(s.value, App) and s.value.fn == ana.func(PAD).qualname and len(s.value.args) == 2 \
-            and s.value.args[0] == Attr(s.base, "point_labels") and s.value.args[1] == Sym("window_size") \
+            and s.value.args[0] == Attr(s.base, "point_labels") \
+            and s.value.args[1] in (Sym("window_size"), Attr(s.base, "window_size")) \
             and isinstance(s.base, App) and s.base.fn == "fast_ticc.main_loop.fit_stacked_data" and bs.return_term() == s.base
     ctx.check(ok, se, "ticc_labels pads the main loop's labels exactly once with its window_size and returns that result",
               role="single:pad-once", expected="result.point_labels = pad(result.point_labels, window_size)",
@@ -224,11 +225,11 @@ def r5(ctx):
         if len(defs) == 1 and len(stores) == 1 and len(stores[0].loops) == 1:
             alloc = b.term(defs[0].ast.value, defs[0])
             s = stores[0]
-            rng = s.loop_ranges[0]
-            i = Sym(s.loops[0].target.id)
+            i, rng = b.binder_of(s.loops[0])        # for i in range(rows) / for (i, label) in enumerate(state.point_labels)
             state_labels = [x for x in tm.subterms(s.value) if isinstance(x, Attr) and x.name == "point_labels"]
-            ok = tm.length(alloc) == rows and rng == Range(0, rows) and s.idx == (i,) and isinstance(s.value, Idx) \
-                and s.value.idx == (i,) and bool(state_labels) and s.value.base == state_labels[0]
+            ok = tm.length(alloc) == rows and s.idx == (i,) and isinstance(s.value, Idx) \
+                and s.value.idx == (i,) and bool(state_labels) and s.value.base == state_labels[0] \
+                and rng in (Range(0, rows), Range(0, tm.length(state_labels[0])))
             found = f"alloc {alloc}; {name}[{s.idx[0]}] = {s.value} for {i} in {rng}"
         elif len(defs) == 1 and not stores:
             t = b.term(defs[0].ast.value, defs[0])
